@@ -6,6 +6,7 @@ import Petl.Sort
 import Petl.Join
 import Petl.HashJoin
 import Petl.SetOps
+import Petl.Group
 namespace Petl
 
 def opCmp : P String := do
@@ -174,6 +175,135 @@ def opSetOp : P String := do
     let b ← pTable
     pure (showOut (setOpView op strict bs a b))
 
+def pAggFn : P AggFn := do
+  let t ← tok
+  match t with
+  | "len" => pure .len | "list" => pure .list | "sum" => pure .sum | "min" => pure .min
+  | "max" => pure .max | "first" => pure .first | "last" => pure .last
+  | _ => P.fail s!"bad aggregation {t}"
+
+/-- the header cell a key spec item contributes: the name, or the index itself -/
+def specCell : FSpec → Val
+  | .name s => .str s
+  | .idx i => .num .int (.fin (i : Rat))
+
+/-- agg <key> <value|KN> <fn> <field> <bs|-> <table>  (simple aggregate with a key) -/
+def opAgg : P String := do
+  let key ← pKey
+  let value ← pKey
+  let fn ← pAggFn
+  let field ← pVal
+  let bs ← pOptNat
+  let t ← pTable
+  match t, key with
+  | hdr :: rows, some k =>
+    let outhdr := k.map specCell ++ [field]
+    match asindices hdr k with
+    | .error e => pure (showOut (.fail [outhdr] e))
+    | .ok kidx =>
+      match (match value with | none => Except.ok none | some v => (asindices hdr v).map some) with
+      | .error e => pure (showOut (.fail [outhdr] e))
+      | .ok vidx => pure (showOut (simpleAggregate (k.map specCell) field kidx vidx fn bs rows))
+  | _, _ => pure "ERR unsupported"
+
+/-- multiagg <key|KN> <n> (<outfield> <src|KN> <fn>)… <bs|-> <table> -/
+def opMultiAgg : P String := do
+  let key ← pKey
+  let cols ← pList (do
+    let name ← pVal
+    let src ← pKey
+    let fn ← pAggFn
+    pure (name, src, fn))
+  let bs ← pOptNat
+  let t ← pTable
+  match t with
+  | hdr :: rows =>
+    let keyHdr := match key with | some k => k.map specCell | none => []
+    let outhdr := keyHdr ++ cols.map (·.1)
+    let kidx? : Except Err (Option (List Nat)) :=
+      match key with | none => .ok none | some k => (asindices hdr k).map some
+    match kidx? with
+    | .error e => pure (showOut (.fail [outhdr] e))
+    | .ok kidx =>
+      -- `hdr.index(f)`: first field equal to the name; ValueError if absent
+      let resolve (src : Option (List FSpec)) : Except Err (Option (List Nat)) :=
+        match src with
+        | none => .ok none
+        | some fs => (fs.mapM (fun (f : FSpec) => match f with
+            | FSpec.name s => match hdr.findIdx? (fun c => Val.pyEq c (.str s)) with
+              | some i => (Except.ok i : Except Err Nat)
+              | none => .error .value
+            | FSpec.idx _ => .error .value)).map some
+      -- sources are resolved lazily, per group: with no groups nothing is resolved
+      let colsR := cols.map (fun c => (resolve c.2.1, c.2.2))
+      let gs : List (Val × List Row) :=
+        match kidx with
+        | some k => sortedGroups k bs rows
+        | none => if rows.isEmpty then [] else [(.none, rows)]
+      let res := mapGroups (fun g => do
+        let cells ← colsR.mapM (fun c => do
+          let src ← c.1
+          let vs ← groupValues src g.2
+          c.2.apply vs)
+        pure ((match kidx with | some k => keyCells k g.1 | none => []) ++ cells)) gs
+      pure (showOut (mkOut outhdr res))
+  | _ => pure "ERR unsupported"
+
+/-- gsel <first|last|min|max> <key> <value|KN> <bs|-> <table> -/
+def opGroupSelect : P String := do
+  let which ← tok
+  let key ← pKey
+  let value ← pKey
+  let bs ← pOptNat
+  let t ← pTable
+  match t, key with
+  | hdr :: rows, some k =>
+    match asindices hdr k with
+    | .error e => pure (showOut (.fail [hdr] e))
+    | .ok kidx =>
+      match which, value with
+      | "first", _ => pure (showOut (groupSelect false hdr kidx bs rows))
+      | "last", _ => pure (showOut (groupSelect true hdr kidx bs rows))
+      | w, some v =>
+        match asindices hdr v with
+        | .error e => pure (showOut (.fail [hdr] e))
+        | .ok vidx => pure (showOut (groupSelectExt (w == "max") hdr kidx vidx bs rows))
+      | _, none => P.fail "gsel min/max needs a value field"
+  | _, _ => pure "ERR unsupported"
+
+/-- foldadd <key> <value> <bs|-> <table> -/
+def opFoldAdd : P String := do
+  let key ← pKey
+  let value ← pKey
+  let bs ← pOptNat
+  let t ← pTable
+  let outhdr : Row := [.str [107, 101, 121], .str [118, 97, 108, 117, 101]]
+  match t, key, value with
+  | hdr :: rows, some k, some v =>
+    match asindices hdr k, asindices hdr v with
+    | .ok kidx, .ok vidx => pure (showOut (foldAdd kidx vidx bs rows))
+    | .error e, _ => pure (showOut (.fail [outhdr] e))
+    | _, .error e => pure (showOut (.fail [outhdr] e))
+  | _, _, _ => pure "ERR unsupported"
+
+/-- mergedup <key (names)> <missing> <bs|-> <table> -/
+def opMergeDup : P String := do
+  let key ← pKey
+  let missing ← pVal
+  let bs ← pOptNat
+  let t ← pTable
+  match t, key with
+  | hdr :: rows, some k =>
+    let keyNames := k.filterMap (fun f => match f with | .name s => some s | .idx _ => none)
+    let isKey (c : Val) : Bool := match c with | .str s => keyNames.contains s | _ => false
+    -- value fields: header fields whose name is not a key name; each resolved with `flds.index(f)`
+    let vfidx := (hdr.filter (fun c => !isKey c)).filterMap (fun c => hdr.findIdx? (fun d => Val.pyEq d c))
+    let outhdr := k.map specCell ++ hdr.filter (fun c => !isKey c)
+    match asindices hdr k with
+    | .error e => pure (showOut (.fail [outhdr] e))
+    | .ok kidx => pure (showOut (mergeDuplicates outhdr kidx vfidx missing bs rows))
+  | _, _ => pure "ERR unsupported"
+
 def dispatch (op : String) : Option (P String) :=
   match op with
   | "cmp" => some opCmp
@@ -185,6 +315,11 @@ def dispatch (op : String) : Option (P String) :=
   | "hashjoin" => some opHashJoin
   | "lookup" => some opLookup
   | "setop" => some opSetOp
+  | "agg" => some opAgg
+  | "multiagg" => some opMultiAgg
+  | "gsel" => some opGroupSelect
+  | "foldadd" => some opFoldAdd
+  | "mergedup" => some opMergeDup
   | _ => none
 
 end Petl
